@@ -31,6 +31,7 @@ namespace simthread
 {
   unsigned created = 0;
   unsigned would_terminate = 0;
+  unsigned worker_exceptions = 0;
 }
 
 #define thread sim_thread
@@ -65,9 +66,14 @@ namespace sim
   {
     return simthread::would_terminate;
   }
+  unsigned grid_worker_exceptions()
+  {
+    return simthread::worker_exceptions;
+  }
   void grid_reset_counters()
   {
     simthread::created = 0;
     simthread::would_terminate = 0;
+    simthread::worker_exceptions = 0;
   }
 }
